@@ -160,3 +160,12 @@ chk("C19", "grammar-based generation (own walker over calc_grammar) with a three
     "must agree again and a variable defined as the deferred expression must hold the immediate value (push path).",
     TRUST + " When the immediate evaluation hits a division by zero nothing is required of the deferred one (documented NaN deviation); "
     "if both fail the exception types may differ (evaluation order).", "DESIGN.md 4/C19")
+
+chk("C20", "configuration-differential testing: one generated corpus interpreted under {compiled, pure} x hash seeds, canonical transcripts compared in the parent",
+    "The parent generates one corpus from VERIF_SEED (manager histories, pickle and dump/load programs, expression terms over adversarial "
+    "keys); child processes interpret every program under the Cython build of the working tree and the pure-Python build, each under "
+    "several PYTHONHASHSEED values (4 configurations quick, 16 thorough) and emit a canonical transcript after every operation (contents, "
+    "sorted dump(), index supports, exception type names, printed forms, values with types, dependency sets, ==/hash verdicts); all "
+    "transcripts of a program must be identical; a mismatch is minimised by greedy re-interpretation under the two differing configurations.",
+    TRUST + " K1-class programs, attribute names colliding with ref attributes and container insertion order are outside the comparison.",
+    "DESIGN.md 4/C20", engine="hypothesis + subprocess-differential")
